@@ -4,6 +4,7 @@ import (
 	"container/heap"
 	"lunar/toolkit-core/clock"
 	"lunar/toolkit-core/logging"
+	"lunar/toolkit-core/verifhook"
 	"sync"
 	"time"
 )
@@ -80,6 +81,7 @@ func (dpq *DelayedPriorityQueue) Enqueue(
 
 	dpq.mutex.Unlock()
 
+	verifhook.Yield("dpq.after_unlock_before_wait", req.ID)
 	// Wait until request is processed or TTL expires
 	select {
 	case <-req.doneCh:
@@ -171,9 +173,11 @@ func (dpq *DelayedPriorityQueue) processQueueItems() {
 		case req.doneCh <- struct{}{}:
 			close(req.doneCh)
 			dpq.currentWindowCounter++
+			verifhook.Event("dpq.granted", req.ID)
 			dpq.cl.Logger.Trace().Str("requestID", req.ID).
 				Msgf("notified successful request processing to req.doneCh")
 		default:
+			verifhook.Event("dpq.missed", req.ID)
 			dpq.cl.Logger.Trace().Str("requestID", req.ID).
 				Msgf("req.doneCh already closed")
 		}
